@@ -113,6 +113,33 @@ def build(fields, style):
 STYLES = ["list", "objs", "dict", "flip", "emptyct"]
 
 
+_PRELUDE = [0]
+PRELUDE_KINDS = ("none", "other-fields-encoded-first", "failed-none-value", "failed-lone-surrogate", "failed-bad-tuple")
+PRELUDE_SEEN = {k: 0 for k in PRELUDE_KINDS}
+
+
+def _prelude(enc, boundary):
+    """History independence: the encoder is a function of its arguments, so what an EARLIER call in the same thread did —
+    including a call that raised half-way through (a None value, a str that cannot be encoded, a malformed file tuple) —
+    must not show in the body judged next.  Every judged encode is therefore preceded, in rotation, by nothing, by a
+    successful encode of other fields, or by one of three failing encodes that reuse the same explicit boundary; the
+    judged body is then parsed by TLC against ITS OWN fields only, so residue of the earlier call is a violation."""
+    _PRELUDE[0] += 1
+    kind = PRELUDE_KINDS[_PRELUDE[0] % len(PRELUDE_KINDS)]
+    PRELUDE_SEEN[kind] += 1
+    if kind == "none":
+        return
+    prior = {"other-fields-encoded-first": [("aaa", "a-a-a")],
+             "failed-none-value": [("aaa", "a-a-a"), ("aa", None)],
+             "failed-lone-surrogate": [("aaa", "a-a-a"), ("aa", "\ud800")],
+             "failed-bad-tuple": [("aaa", "a-a-a"), ("aa", ("a.txt", b"a", "text/plain", "a"))]}[kind]
+    try:
+        enc(prior, boundary=boundary)
+    except Exception:
+        if kind == "other-fields-encoded-first":
+            raise
+
+
 def real_encode(fields, style, boundary):
     """-> (body bytes, content-type bytes) or None when the style does not apply.  `boundary` is a
     symbol list or None (urllib3 chooses)."""
@@ -120,6 +147,7 @@ def real_encode(fields, style, boundary):
     if arg is None:
         return None
     enc = _mods()[0]
+    _prelude(enc, sym_text(boundary) if boundary is not None else None)
     body, ct = enc(arg, boundary=sym_text(boundary) if boundary is not None else None)
     if not isinstance(body, bytes) or not isinstance(ct, str):
         raise TypeError(f"encode_multipart_formdata returned {type(body).__name__}, {type(ct).__name__}")
@@ -216,7 +244,9 @@ def check_emitted(st, styles=STYLES):
             continue
         n += 1
         if got != (want_body, want_ct):
-            bad.append({"kind": "emitted", "style": style, "state": st, "raised": None})
+            # keep the bytes actually returned: the verdict must be on THIS output, not on a later re-encode
+            bad.append({"kind": "emitted", "style": style, "state": st, "raised": None,
+                        "got_body": lex(got[0]), "got_ct": lex(got[1])})
     return n, bad
 
 
@@ -388,8 +418,7 @@ def classify(bads, counters):
             # is not defined; byte inequality with the reference layout is reported as drift
             out.append(("drift", f"inadmissible state differs from the reference layout (style {m['style']})", m))
         else:
-            body, ct = real_encode(st["fs"], m["style"], st["b"])
-            todo.append((m, trace_of(st["fs"], True, st["b"], body, ct)))
+            todo.append((m, {"fields": st["fs"], "explicit": True, "boundary": st["b"], "body": m["got_body"], "ct": m["got_ct"]}))
     for i in range(0, len(todo), 1000):
         chunk = todo[i:i + 1000]
         r, verdicts = validate_traces([t for _, t in chunk])
